@@ -178,6 +178,8 @@ def family_key(f):
 
 
 def run(res, programs, tier):
+    from . import c19
+    c19.shared_r19_2(res, programs)
     res.rule("R15.1", "all ownership forms of one (trait, operand types) family reach the same kernel set through adapters/delegation")
     res.rule("R15.2", "every *Assign / DivRemAssign form reaches exactly the kernels of its value family; hand-written assign forms have the same effect summary as the value form")
     res.rule("R15.3", "delegating forms pass their operands in order (no swap in non-commutative families) and are pure adapters")
